@@ -2,7 +2,8 @@ INIT Init
 NEXT Next
 CONSTANTS
   Names = {"a", "b"}
-  MaxCost = 5
-  Directed = TRUE
-INVARIANTS RT GenSound Emit
+  MaxCost = 2
+  Directed = FALSE
+  NestedOrFixed = TRUE
+INVARIANTS RTstrict
 CHECK_DEADLOCK FALSE
